@@ -282,6 +282,17 @@ def run(chk):
                 # position displacement has norm == displacement
                 d2 = sum((got[i] - xo[i]) ** 2 for i in range(3))
                 require_identity(red, d2, disp ** 2, key_prefix="position displacement norm")
+                # xx / PHI are the CACHED orbit samples and STMs shared by every later computation on the same manifold:
+                # they must come back untouched, and a second request must give the same seed
+                for i in range(6):
+                    require_identity(red, val(xx[1, i]), xo[i], key_prefix=f"cached orbit sample xx[1,{i}] modified by the seed "
+                                     f"computation (direction {direction})")
+                for i in range(36):
+                    require_identity(red, val(PHI[1, i]), Phi[i], key_prefix=f"cached STM sample PHI[1,{i}] modified")
+                out2 = S._compute_manifold_section(stub, period=1.0, fraction=0.45, displacement=X(disp), xx=xx, tt=tt,
+                                                   PHI=PHI, eigvec=xarr(v))
+                for i in range(6):
+                    require_identity(red, vals(out2)[i], got[i], key_prefix=f"second request for the same seed differs (component {i})")
     chk.obl("_compute_manifold_section: x0W == x(t_f) + displacement/||(Phi v)[0:3]|| * direction * Phi(t_f) v; "
             "position displacement has norm == displacement", "K1 identity",
             [MS + ":_ManifoldDynamicsService._compute_manifold_section"], "B3 sympy normal form", th_seed)
